@@ -497,6 +497,22 @@ def run(ctx) -> None:  # noqa: F811
                     found = True
                 elif s2 in body:
                     stack.append(s2)
+        # the repetition loop must start at repetition 0 whatever the window: its range may not depend on the
+        # window parameters (skipping whole repetitions skips their draws)
+        loop_ast = cfg.nodes[header].ast
+        if isinstance(loop_ast, _ast.For):
+            from ..cfg import DataFlow as _DF
+
+            dfw = _DF(f.node)
+            window = {p for p in f.positional_params if p in ("first_slice", "last_slice")}
+            ctx.require(window, f"{f.qualname}: window parameters first_slice/last_slice not found")
+            sl = dfw.backward_slice(header, loop_ast.iter)
+            dep = sorted(sl.params & window)
+            ctx.check(not dep, "R-RNGSTREAM", f"{f.qualname}:repetition range", f.loc(loop_ast),
+                      f"the loop `for {_nt(loop_ast.target)} in {_nt(loop_ast.iter)}` does not depend on the window",
+                      f"the repetition loop iterates `{_nt(loop_ast.iter)[:60]}`, which depends on the window parameter(s) "
+                      f"{dep}: repetitions before the window are skipped together with their draws, so a window uses "
+                      "other units than the full sequence", key_detail="window-range")
         ctx.check(not found, "R-RNGSTREAM", f"{f.qualname}:{_nt(c)[:40]}", f.loc(c),
                   "the draw is executed on every pass through the repetition loop",
                   f"a path through the repetition loop reaches the next repetition without executing `{_nt(c)[:50]}`: the "
